@@ -301,9 +301,14 @@ Section Off.
   Variable is_space : N -> bool.
   Variable text : str.
   Variable words : list elem.
+  (* the backward-anchor clause of the search contract is only needed for the windows the
+     pipeline builds: slices of the text (Wok := fun _ => True gives the unguarded theorems,
+     Wok := ws_clean is_space the guarded ones) *)
+  Variable Wok : str -> Prop.
 
   Hypothesis Hstream : stream_ok text words.
-  Hypothesis Hsearch : search_ok search.
+  Hypothesis Hsearch : search_ok_w Wok search.
+  Hypothesis HWok : forall a b, Wok (slice text a b).
 
   Lemma tok_wf i t : nth_error words i = Some (T t) -> cand_wf text t.
   Proof. intros H. destruct Hstream as [_ Hk]. apply (Hk i t H). Qed.
@@ -713,7 +718,8 @@ Section Off.
     destruct (window_bwd_suffix MAXC text words i true Hstream
                 (Nat.lt_le_incl _ _ (index_lt _ _ Hn))) as (n & Hnp & Hw).
     fold w in Hw. rewrite Hpos0 in *.
-    destruct (Hsearch _ _ _ Es) as (Hok & _ & Hend & _). specialize (Hend eq_refl).
+    destruct (Hsearch _ _ _ Es) as (Hok & _ & Hend & _).
+    specialize (Hend eq_refl ltac:(rewrite Hw; apply HWok)).
     assert (Hwl : length w = n).
     { rewrite Hw, slice_length; [lia|lia|]. destruct (tok_wf _ _ Hn) as (? & ? & ?). lia. }
     rewrite Hwl in Hend.
@@ -959,6 +965,39 @@ Proof.
   destruct Hf as [<-|[]]. eapply nth_error_In. exact E.
 Qed.
 
+(* the general form: the backward-anchor clause of the search contract relativised to a window
+   predicate Wok that holds of every slice of the text *)
+Theorem get_citations_offsets_w :
+  forall (Wok : str -> Prop)
+         search refsearch MAXC BACK D highest this_year edition_of source_of valid_name is_space
+         text words cits ra l,
+  text <> s_eyecite ->
+  stream_ok text words -> cits_ok words cits -> toks_ok source_of words ->
+  (forall a b, Wok (slice text a b)) ->
+  search_ok_w Wok search -> refs_ok refsearch ->
+  forall post_short_total : (forall w, search PPostShort w <> None),
+  get_citations search refsearch MAXC BACK D highest this_year edition_of source_of valid_name is_space
+                text words cits ra = Ok l ->
+  Forall (offsets_ok text) l.
+Proof.
+  intros Wok search refsearch MAXC BACK D highest this_year edition_of source_of valid_name is_space
+         text words cits ra l Hne Hstream Hcits Htoks HWok Hsearch Hrefs Htotal Hg.
+  unfold get_citations in Hg.
+  destruct (str_eqb_spec text s_eyecite) as [E|_]; [contradiction|].
+  destruct (cite_run _ _ _ _ _ _ _ _ _ _ _ _ _ _ _) as [acc|] eqn:Er; [|discriminate Hg].
+  cbn [bind] in Hg. injection Hg as <-.
+  assert (Hacc : Forall (offsets_ok text) acc).
+  { eapply (cite_run_ok search refsearch MAXC BACK D highest this_year edition_of source_of
+              valid_name is_space text words Wok Hstream Hsearch HWok Htotal Htoks Hrefs);
+      [exact Hcits|constructor|exact Er]. }
+  assert (Hf : Forall (offsets_ok text) (filter_pcits (rev acc))).
+  { apply Forall_forall. intros c Hc. apply filter_pcits_incl in Hc. apply in_rev in Hc.
+    revert c Hc. apply Forall_forall. exact Hacc. }
+  destruct ra; [|exact Hf].
+  unfold disambiguate. apply Forall_forall. intros c Hc. apply filter_In in Hc.
+  destruct Hc as [Hc _]. revert c Hc. apply Forall_forall. exact Hf.
+Qed.
+
 Theorem get_citations_offsets :
   forall search refsearch MAXC BACK D highest this_year edition_of source_of valid_name is_space
          text words cits ra l,
@@ -973,18 +1012,28 @@ Theorem get_citations_offsets :
 Proof.
   intros search refsearch MAXC BACK D highest this_year edition_of source_of valid_name is_space
          text words cits ra l Hne Hstream Hcits Htoks Hsearch Hrefs Htotal Hg.
-  unfold get_citations in Hg.
-  destruct (str_eqb_spec text s_eyecite) as [E|_]; [contradiction|].
-  destruct (cite_run _ _ _ _ _ _ _ _ _ _ _ _ _ _ _) as [acc|] eqn:Er; [|discriminate Hg].
-  cbn [bind] in Hg. injection Hg as <-.
-  assert (Hacc : Forall (offsets_ok text) acc).
-  { eapply cite_run_ok; try eassumption. constructor. }
-  assert (Hf : Forall (offsets_ok text) (filter_pcits (rev acc))).
-  { apply Forall_forall. intros c Hc. apply filter_pcits_incl in Hc. apply in_rev in Hc.
-    revert c Hc. apply Forall_forall. exact Hacc. }
-  destruct ra; [|exact Hf].
-  unfold disambiguate. apply Forall_forall. intros c Hc. apply filter_In in Hc.
-  destruct Hc as [Hc _]. revert c Hc. apply Forall_forall. exact Hf.
+  exact (get_citations_offsets_w (fun _ => True) _ _ _ _ _ _ _ _ _ _ _ _ _ _ _ _
+           Hne Hstream Hcits Htoks (fun _ _ => I) (search_ok_w_of_ok _ _ Hsearch) Hrefs Htotal Hg).
+Qed.
+
+(* the guarded form: for a text without whitespace other than U+0020, the backward-anchor clause
+   is only required on windows without such whitespace *)
+Theorem get_citations_offsets_g :
+  forall search refsearch MAXC BACK D highest this_year edition_of source_of valid_name is_space
+         text words cits ra l,
+  text <> s_eyecite -> ws_clean is_space text ->
+  stream_ok text words -> cits_ok words cits -> toks_ok source_of words ->
+  search_ok_g is_space search -> refs_ok refsearch ->
+  forall post_short_total : (forall w, search PPostShort w <> None),
+  get_citations search refsearch MAXC BACK D highest this_year edition_of source_of valid_name is_space
+                text words cits ra = Ok l ->
+  Forall (offsets_ok text) l.
+Proof.
+  intros search refsearch MAXC BACK D highest this_year edition_of source_of valid_name is_space
+         text words cits ra l Hne Hclean Hstream Hcits Htoks Hsearch Hrefs Htotal Hg.
+  exact (get_citations_offsets_w (ws_clean is_space) _ _ _ _ _ _ _ _ _ _ _ _ _ _ _ _
+           Hne Hstream Hcits Htoks (fun a b => ws_clean_slice is_space text a b Hclean)
+           (search_ok_w_of_g _ _ Hsearch) Hrefs Htotal Hg).
 Qed.
 
 (* The premise post_short_total cannot be dropped: search_ok says nothing when a
@@ -1026,3 +1075,5 @@ Proof.
   intros H. inversion H as [|? ? Hc _]. clear H.
   unfold offsets_ok in Hc. cbn in Hc. lia.
 Qed.
+Print Assumptions get_citations_offsets_w.
+Print Assumptions get_citations_offsets_g.
